@@ -332,6 +332,11 @@ def run(ctx, report: Report) -> None:
                          f'two spellings of the same instant (10:30 and 10:30:00) are ordered, and min/max written one way and the value '
                          f'the other way give the wrong range verdict')
 
+    # ---- R8 (the whole pipeline by interpretation, bounded) --------------------------------------------------------------
+    r8 = report.rule('C18-R8', ':in-range / :out-of-range over inputs of every range type that share attribute texts, in both document orders (bounded)', floor=2)
+    from .e2ematch import range_pipeline_table
+    range_pipeline_table(ctx, r8)
+
 
 
 def parse_value_types(ctx, candidates, uses=None):
